@@ -356,8 +356,11 @@ def run(fx, chk, tier):
     for ok_, key_, how_, fn_, line_ in res:
         if key_ in ("prologue", "patch"):
             chk.require(ok_, "R-MDAT", key_, how_, how_, site_of(fn_, line_))
+    from packs_common import compose
+    chk.rule("R-READBACK", "the 64-bit forms the muxer switches to are read back by the demuxer: header constants and every advance past a child (the extended-size mdat in particular) are based on the position after its header; co64 is consulted by the chunk lookup (C12 R4/R5 instances)")
+    compose(fx, chk, tier, "R-READBACK", "C12", ["R4", "R5"], floor=25, what="64-bit header obligations of the reader")
     return chk.finish(
         "other",
         "%d 64-bit-sourced narrowing casts in the muxer closure are classified with the abstract interpreter's intervals and the version-pairing rule; the co64->stco conversion, "
-        "the provenance of recorded chunk offsets and the mdat patch/prologue pairing are checked structurally. Not decided: read-back of > 4 GiB output." % ncast,
+        "the provenance of recorded chunk offsets and the mdat patch/prologue pairing are checked structurally; the reader's handling of the 64-bit header form is the C12 R4/R5 composition. Not decided: the values read back from > 4 GiB output." % ncast,
     )
